@@ -16,7 +16,7 @@ from lib.pipeline import *
 from lib.coexec import make_layout, LayoutError
 
 LEVEL = 'proof'
-THEOREMS = ['C04_asm_sel_size', 'C04_optimize_size_le', 'C04_optimize_instrs_subset', 'C04_repair_sizes']
+THEOREMS = ['C04_asm_sel_size', 'C04_popnd_zp_known_addr', 'C04_asm_sel_old_size_fails', 'C04_optimize_size_le', 'C04_optimize_instrs_subset', 'C04_repair_sizes']
 
 
 def boundary_programs():
@@ -28,10 +28,10 @@ def boundary_programs():
         for ty in ('unsigned char', 'char'):
             out['bnd_%x_%s' % (addr, ty.replace(' ', ''))] = (
                 '%s *const R = 0x%x; unsigned char a, i; short s;\n'
-                'void main() { *R = a; a = *R; R[1] = 3; a = R[2]; a = R[X]; R[Y] = a; strobe(R); load(*R); store(R); '
+                'void main() { *R = a; a = *R; R[1] = 3; a = R[2]; a = R[X]; R[Y] = a; strobe(R); load(*R); store(*R); '
                 'if (*R) a = 1; if (R[1] == a) a = 2; (*R)++; R[1]--; *R += 2; a = *R << 1; a = R[i]; R[i] = a; s = *R; }\n' % (ty, addr))
             out['bnds_%x_%s' % (addr, ty.replace(' ', ''))] = (
-                '%s *const R = 0x%x; unsigned char a;\nvoid main() { *R = a; a = R[1]; strobe(R); if (*R) a = 1; }\n' % (ty, addr))
+                '%s *const R = 0x%x; unsigned char a;\nvoid main() { *R = a; a = R[1]; strobe(R); if (*R) a = 1; a = R[X]; R[Y] = a; }\n' % (ty, addr))
     return out
 
 
@@ -54,6 +54,9 @@ def size_pass(ctx, n_prog, rng, levels, opts_list, extra=None):
         for O, r in vs.items():
             if r['status'] != 'ok':
                 continue
+            for w in var_wf_problems(r['vars']):
+                viol.append({'why': 'memory class of a constant-address object contradicts its address: ' + w['why'],
+                             'program': srcs[pid], 'level': O, 'variable': w})
             try:
                 lay = make_layout(r['vars'], [f['name'] for f in r.get('funcs', [])])
             except LayoutError:
@@ -90,6 +93,8 @@ def run(ctx):
     rng = ctx.rng
     ctx.proof_stage('Props.C04', THEOREMS)
     total, mism, table, vars_ = run_domain()
+    # hypothesis var_wf of C04_asm_sel_size, checked on what the real front end produces
+    wfp = var_wf_problems(vars_)
     ctx.cov['evaluations'] += total
     ctx.cov['exhaustive'] = True
     ctx.cov['correspondence']['corr-M asm() domain'] = {'cells': total, 'mismatches': len(mism), 'exhaustive': True,
@@ -126,6 +131,9 @@ def run(ctx):
                                           'eight_bits': m['probe'][4], 'offset_or_value': m['probe'][5], 'high_byte': m['probe'][6],
                                           'scheme': m['probe'][7]},
                              'emitted': m['impl']})
+    for w in wfp[:2]:
+        viol.insert(0, {'why': 'memory class of a constant-address object contradicts its address (hypothesis var_wf of C04_asm_sel_size): ' + w['why'],
+                        'program': DOMAIN_SRC, 'variable': w})
     for v in viol[:3]:
         ctx.violation('size', v)
     if mism and not viol:
